@@ -557,6 +557,23 @@ class XV1(Prop):
         return line.split(" | ")[0]
 
 
+class XC01(XV1):
+    """internal: the grammar oracle of Spec/V1Grammar.v against the implementation"""
+    id = "XC01"
+
+    def groups(self, stream, e, meta):
+        cases = ["v1b " + e]
+        if is_utf8(expr_bytes(e)):
+            cases += ["v1s " + e, "v1fh " + e, "v1fa " + e]
+        yield ("acc", cases)
+
+    def oracle(self, tag, cases, impl, spec, meta):
+        for c, i, s in zip(cases, impl, spec):
+            if acc(i) != s:
+                return "%s: impl `%s`, grammar `%s`" % (c[:120], acc(i)[:120], s[:120])
+        return None
+
+
 class XSTD(Prop):
     """internal: validates the Std models against the real standard library"""
     id = "XSTD"
@@ -565,11 +582,17 @@ class XSTD(Prop):
     def groups(self, stream, e, meta):
         yield ("std", ["std %s %s" % e])
 
+    def oracle(self, tag, cases, impl, spec, meta):
+        kind = cases[0].split(" ")[1]
+        if kind in ("ip4", "ip6") and impl[0] != spec[0]:
+            return "std %s: `%s`, grammar of Spec/V1Grammar.v: `%s`" % (cases[0][:100], impl[0], spec[0])
+        return None
+
     def neighbours(self, case, rng):
         return iter(())
 
 
-REGISTRY = {c.id: c for c in (XV1(), XSTD(), C02(), C07(), C09(), C10(), C11(), C13(), C14(), C17(), C20())}
+REGISTRY = {c.id: c for c in (XV1(), XC01(), XSTD(), C02(), C07(), C09(), C10(), C11(), C13(), C14(), C17(), C20())}
 
 
 def get(prop):
